@@ -146,3 +146,16 @@ package client
 //@ at call sync.(*Mutex).Lock requires rheld(o.rpcMutex) >= 1 || wheld(o.rpcMutex) >= 1
 //@ at call client.(*ovsdbClient).monitor requires rheld(o.rpcMutex) >= 1 || wheld(o.rpcMutex) >= 1
 
+// handleDisconnectNotification (C18): the handler goroutines are waited for
+// BEFORE rpcMutex is taken - they need rpcMutex themselves to finish.
+//@ func (*ovsdbClient).handleDisconnectNotification group lockorder
+// it runs as a goroutine of its own: no lock is held when it starts
+//@ requires wheld(o.rpcMutex) == 0 && rheld(o.rpcMutex) == 0
+//@ at call sync.(*WaitGroup).Wait requires wheld(o.rpcMutex) == 0 && rheld(o.rpcMutex) == 0
+
+// monitor (C16): a restarted monitor_cond_since asks for the changes since its
+// last transaction only when it is the only monitor; with several monitors the
+// cache was purged and every reply must carry the complete contents.
+//@ func (*ovsdbClient).monitor group lockorder
+//@ at call ovsdb.NewMonitorCondSinceArgs requires arg3 == "00000000-0000-0000-0000-000000000000" || (reconnecting && len(db.monitors) == 1)
+
